@@ -80,6 +80,19 @@ def parseDir (w : String) : Nat × Nat × DirRes × Bool :=
   | [d, o, na, nb, nt] => (d.toNat, o.toNat, ⟨na.toNat, nb.toNat, nt.toNat⟩, decide (0 ≤ nb))
   | _ => (0, 0, ⟨0, 0, 0⟩, false)
 
+/-- "-2" as overflow buffer = any buffer that is free in the model (a buffer that is taken and released
+again inside one commit; in a non-serialised trace another thread may log its use of the same slot
+before this commit record) -/
+def fixWild (free : Nat) (w : String) : String :=
+  match w.splitOn ":" with
+  | [d, o, na, nb, nt] => if nb == "-2" then ":".intercalate [d, o, na, toString free, nt] else w
+  | _ => w
+
+def mentioned (ws : List String) : List Nat :=
+  ws.flatMap fun w => match (w.splitOn ":").map int! with
+    | [_, _, na, nb, _] => [na.toNat, nb.toNat]
+    | _ => []
+
 def splitBar (ws : List String) : List (List String) :=
   ws.foldr (fun w acc => if w == "|" then [] :: acc else match acc with | a :: r => (w :: a) :: r | [] => [[w]]) [[]]
 
@@ -165,7 +178,9 @@ def handle (st : St) : List String → St × String
     | some ⟨.traverse b0, .running⟩ =>
       match st.s.pool b0 with
       | some buf =>
-        let dirs := rest.map parseDir
+        let used := mentioned rest
+        let free := ((List.range st.cfg.bufCap).find? fun b => bufFree st.cfg st.s b && !used.contains b).getD st.cfg.bufCap
+        let dirs := (rest.map (fixWild free)).map parseDir
         let g := buf.sub
         -- physics outcome: the first out(d) packets leave through d (in the order given), the last `gone`
         -- packets are not stored (a disabled direction)
